@@ -47,6 +47,9 @@ type c20Scenario struct {
 	N       int      `json:"n"`
 	Plan    []string `json:"plan"`
 	T       int      `json:"T"`       // strategy time-out, ms
+	// Hist: the plans of EARLIER calls made on the same strategy instance before the call of Plan (the instance
+	// is long-lived: one scenario = one history of calls on one real instance)
+	Hist [][]string `json:"hist"`
 	Patient int      `json:"patient"` // 1 on confirmation runs: longer quiescence period
 }
 
@@ -63,6 +66,13 @@ type c20Node struct {
 
 func c20NewNode(idx int, plan string, onReply func(int, string)) *c20Node {
 	return &c20Node{idx: idx, plan: plan, entered: make(chan struct{}), release: make(chan struct{}), done: make(chan struct{}), onReply: onReply}
+}
+
+// rescript prepares the node for the next call of the history (the previous request has been answered).
+func (n *c20Node) rescript(plan string) {
+	n.plan = plan
+	n.entered, n.release, n.done = make(chan struct{}), make(chan struct{}), make(chan struct{})
+	n.once = sync.Once{}
 }
 
 // serve is the body of every provider method: "ok", "err", "nil" or (silent) the context's error.
@@ -291,12 +301,32 @@ func c20RunCall(emit func(verifsupport.Ev), sc *c20Scenario) error {
 	for i := range nodes {
 		nodes[i] = c20NewNode(i+1, sc.Plan[i], func(idx int, r string) { ev(verifsupport.Ev{"ev": "Reply", "p": idx, "r": r}) })
 	}
+	// ONE real strategy instance for the whole history
 	call, err := c20Build(ctx, sc.Site, nodes, time.Duration(sc.T)*time.Millisecond)
 	if err != nil {
 		return fmt.Errorf("c20: %s: %w", sc.Site, err)
 	}
+	plans := append(append([][]string{}, sc.Hist...), sc.Plan)
+	for ci, plan := range plans {
+		if len(plan) != sc.N {
+			return fmt.Errorf("c20: %s: scenario %d: call %d has %d plans for %d nodes", sc.Site, sc.Sc, ci+1, len(plan), sc.N)
+		}
+		for i, n := range nodes {
+			n.rescript(plan[i])
+		}
+		if err := c20OneCall(ctx, ev, sc, call, nodes, plan, ci+1, quiet); err != nil {
+			return err
+		}
+	}
+	return nil
+}
+
+// c20OneCall makes one call of the history on the instance and judges what it leaves behind.
+func c20OneCall(ctx context.Context, ev func(verifsupport.Ev), sc *c20Scenario, call func(context.Context) string, nodes []*c20Node,
+	plan []string, number int, quiet time.Duration,
+) error {
 	_, before := c20Settle(sc.Site, quiet/2)
-	ev(verifsupport.Ev{"ev": "Call", "site": sc.Site, "kind": "first", "n": sc.N, "deadline": true, "plan": sc.Plan})
+	ev(verifsupport.Ev{"ev": "Call", "site": sc.Site, "kind": "first", "n": sc.N, "deadline": true, "plan": plan, "call": number})
 	ret := make(chan string, 1)
 	go func() { ret <- call(ctx) }()
 	// Every request is with its node before the first answer is given.
